@@ -18,8 +18,8 @@ const (
 // control attributes.
 type URL url.URL
 
-// user info and host cannot contain slashes.
-var escapeRegexp = regexp.MustCompile(`^(.+?)://([^/]*?)@([^/]*?)/(.*?)$`)
+// scheme, user info and host cannot contain slashes.
+var escapeRegexp = regexp.MustCompile(`^([^:/]+)://([^/]*?)@([^/]*?)/(.*?)$`)
 
 // ParseURL parses a RTSP URL.
 func ParseURL(s string) (*URL, error) {
